@@ -15,6 +15,8 @@ type C17Case struct {
 	A, B *World // B re-expresses workloads of A (kind, replicas); same names
 	// Collide: B additionally contains a second workload whose name collides with an existing one across kinds
 	Collide bool
+	// StopOnError: both runs use the stop-on-first-error option (the inputs are clean, so it must not matter)
+	StopOnError bool `json:",omitempty"`
 }
 
 func genC17(t *rapid.T) *C17Case {
@@ -26,7 +28,14 @@ func genC17(t *rapid.T) *C17Case {
 			b.Workloads[i].Replicas = rapid.IntRange(-1, 4).Draw(t, fmt.Sprintf("r%d", i))
 		}
 	}
-	c := &C17Case{A: a, B: b}
+	if rapid.IntRange(0, 3).Draw(t, "allone") == 0 {
+		// every workload expressed as one and the same kind
+		k := rapid.SampledFrom(allKinds).Draw(t, "allkind")
+		for i := range b.Workloads {
+			b.Workloads[i].Kind = k
+		}
+	}
+	c := &C17Case{A: a, B: b, StopOnError: rapid.IntRange(0, 2).Draw(t, "stop") == 0}
 	if rapid.IntRange(0, 4).Draw(t, "collide") == 0 && len(b.Workloads) > 0 {
 		c.Collide = true
 		src := b.Workloads[rapid.IntRange(0, len(b.Workloads)-1).Draw(t, "cw")]
@@ -65,7 +74,7 @@ func stripKinds(r *ListRes) map[string]string {
 
 func checkC17(c *C17Case, st *VStats) *VFailure {
 	da := c.A.WriteDir()
-	ra := RunList(da, ListOpts{})
+	ra := RunList(da, ListOpts{StopOnError: c.StopOnError})
 	os.RemoveAll(da)
 	if ra.Panic != nil {
 		return &VFailure{Msg: fmt.Sprintf("list panicked: %v", ra.Panic), Sig: "panic"}
@@ -75,7 +84,7 @@ func checkC17(c *C17Case, st *VStats) *VFailure {
 		return nil
 	}
 	db := c.B.WriteDir()
-	rb := RunList(db, ListOpts{})
+	rb := RunList(db, ListOpts{StopOnError: c.StopOnError})
 	os.RemoveAll(db)
 	if rb.Panic != nil {
 		return &VFailure{Msg: fmt.Sprintf("list panicked on the re-expressed input: %v", rb.Panic), Sig: "panic"}
